@@ -71,7 +71,8 @@ struct Rig {
 	NiShape* shape = nullptr;
 	Kind kind;
 	Rig(bool needsPrefix, Kind k) : kind(k) {
-		nif.Create(needsPrefix ? NiVersion::getSSE() : NiVersion::getOB());
+		// the texturing-property slot kind exists in the Oblivion and Fallout 3 families; with the prefix rule it is Fallout 3's
+		nif.Create(needsPrefix ? (k == SOURCE ? NiVersion::getFO3() : NiVersion::getSSE()) : NiVersion::getOB());
 		std::vector<Vector3> v = {{0, 0, 0}, {1, 0, 0}, {0, 1, 0}};
 		std::vector<Triangle> t = {Triangle(0, 1, 2)};
 		std::vector<Vector2> uv = {{0, 0}, {1, 0}, {0, 1}};
@@ -216,7 +217,6 @@ int cmdReplay(int argc, char** argv) {
 				std::string pTok = pt.done();
 				for (Kind kind : {TEXSET, EFFECT, SOURCE}) {
 					if (kind == EFFECT && !np) continue; // effect shaders do not exist for OB
-					if (kind == SOURCE && np) continue;	 // NiTexturingProperty/NiSourceTexture is the OB slot kind
 					Rig*& rig = rigs[np][kind];
 					if (!rig) rig = new Rig(np, kind);
 					for (bool viaLoad : {false, true}) {
